@@ -9,7 +9,10 @@ from ..view import View
 from . import common, hang
 
 JOBS = {"quick": 4, "thorough": 16}
-CANCELS = ["cancel", "kbd", "sysexit"]
+CANCELS = ["cancel", "kbd", "sysexit", "cancel_exc", "kbd_exc", "sysexit_exc"]
+# what a cancelled task / an interrupt delivers at an await point is always the plain type; application classes that also derive
+# from Exception are only ever *raised* (by the operation, by a sleeper)
+THROWN = ["cancel", "kbd", "sysexit"]
 
 
 def base_scenarios(rng, n):
@@ -86,7 +89,7 @@ def enumerate_faults(ctx, base, entry, rng, tier, stats):
         ctx.mx("max_suspension_points", clean.suspensions)
         tags = []
         for sp in range(clean.suspensions):
-            for k in CANCELS + ["close"]:
+            for k in THROWN + ["close"]:
                 sc = dict(base, fault={"kind": "throw", "at": sp, "exc": k, "call": 0})
                 _run(ctx, sc, entry, stats, "throw-at-suspension")
                 points += 1
